@@ -127,6 +127,9 @@ fn main() {
                 .collect();
             write_out(&args[4], &out);
         }
+        ("measure", "c18") => {
+            c18::measure_child(args[3].parse().expect("shape index"), args.iter().any(|a| a == "--thorough"));
+        }
         ("record", prop) => {
             let cli = opt(&args, "--cli");
             let out = match prop {
